@@ -41,7 +41,7 @@ def main(tier):
     import time
     t0 = time.time()
 
-    def make_set(big):
+    def make_set(big, rng=rng):
         texts, items = cc.gen_project(rng, n_bases=4 if big else rng.randint(2, 3), max_items=10 if big else rng.choice([4, 5, 6]), doc_p=0.4, docedit_p=0.6)
         cfg = dict(MinLines=3 if big else rng.choice([4, 5, 6]), MinNodes=4 if big else rng.choice([6, 8, 10]),
                    MaxEditDistance=rng.choice([0, 0, 50.0, 3.0]), ReduceBoilerplateSimilarity=rng.random() < 0.5, BoilerplateMultiplier=0.1,
@@ -71,19 +71,37 @@ def main(tier):
                    SimilarityThreshold=xr.choice([0, 0.65]), Type1Threshold=xr.choice([0.98, 0.85]), Type2Threshold=0.75, Type3Threshold=0.7,
                    Type4Threshold=xr.choice([0.65, 0.5]), MaxClonePairs=10000, BatchSizeThreshold=xr.choice([50, 3, 2]),
                    BatchSizeLarge=xr.choice([100, 7, 0]), BatchSizeSmall=xr.choice([50, 2, 0]), LargeProjectSize=xr.choice([500, 10, 0]))
-        return dict(texts=dict(files), files=files, cfg=cfg, lsh=[rand_lsh(xr) for _ in range(4 if thorough else 2)], big=False, kind="ratio", meta=meta,
+        # hashes 100, threshold 0.8 / 0.1: float64(80)/float64(100) is the float64 0.8 itself (clonecommon.lsh_threshold_for_model)
+        fixed = [dict(bands=16, rows=2, hashes=100, threshold=0.8), dict(bands=50, rows=1, hashes=100, threshold=0.1)][k % 2]
+        return dict(texts=dict(files), files=files, cfg=cfg, lsh=[fixed] + [rand_lsh(xr) for _ in range(3 if thorough else 1)], big=False, kind="ratio", meta=meta,
                     batch_sizes=batch_sizes)
 
-    def make_tiny_set(n_frag):
-        """0 or 1 fragment: DetectClonesWithLSH falls back to the standard path (clone_detector.go:655)."""
-        src = "import os\n\n" + ("\n".join(cc.straight_function("only", 9)) + "\n" if n_frag else "value = 1\n")
-        cfg = dict(MinLines=3, MinNodes=9 if n_frag else 4, MaxEditDistance=0, SkipDocstrings=True, SimilarityThreshold=0, Type1Threshold=0.85, Type2Threshold=0.75,
+    def make_tiny_set(kind):
+        """one / none: 1 or 0 fragments -- DetectClonesWithLSH falls back to the standard path (clone_detector.go:655);
+        limit0: two identical fragments with MaxClonePairs = 0 (the batch loop's own default applies, the final limit keeps nothing);
+        micro: compound statements of 2-3 nodes, fewer labels than the k-gram width of the feature extractor (ast_features.go:150).
+        The straight-line function has 17 assignments (node-type bin '16+', ast_features.go:218)."""
+        cfg = dict(MinLines=3, MinNodes=9, MaxEditDistance=0, SkipDocstrings=True, SimilarityThreshold=0, Type1Threshold=0.85, Type2Threshold=0.75,
                    Type3Threshold=0.7, Type4Threshold=0.65, MaxClonePairs=10000, BatchSizeThreshold=50, BatchSizeLarge=0, BatchSizeSmall=0, LargeProjectSize=0)
-        return dict(texts={"only.py": src}, files=[("only.py", src)], cfg=cfg, lsh=[rand_lsh(xr) for _ in range(2)], big=False, kind="tiny")
+        fn = "import os\n\n" + "\n".join(cc.straight_function("only", 17)) + "\n"
+        if kind == "one":
+            files = [("only.py", fn)]
+        elif kind == "none":
+            files = [("only.py", "import os\n\nvalue = 1\n")]
+        elif kind == "limit0":
+            files = [("only.py", fn), ("pkg/again.py", fn)]
+            cfg["MaxClonePairs"] = 0
+        else:
+            micro = "import os\n\nwhile os.flag:\n    pass\n\nif os.flag:\n    pass\n\nfor item in os.items:\n    pass\n"
+            files = [("m1.py", micro), ("m2.py", micro)]
+            cfg.update(MinLines=1, MinNodes=1)
+        return dict(texts=dict(files), files=files, cfg=cfg, lsh=[rand_lsh(xr) for _ in range(2)], big=False, kind="tiny", batch_sizes=[1, 2, 100])
 
     n_big = 8 if thorough else 1
     # big sets: 51..64 fragments so that the public entry point batches by itself (n > BatchSizeThreshold = 50)
     cands = [make_set(True) for _ in range(5 * n_big)]
+    xr0 = cc.side_rng(rng)
+    cands += [make_set(True, xr0) for _ in range(3 * n_big)]    # more candidates for the 51..70 window, from a side generator
     # fragment counts: one request per file (extraction is per file; this keeps the probe's pair comparisons inside single files)
     preqs = [(ci, cc.driver_req([f], s["cfg"], table="none")) for ci, s in enumerate(cands) for f in s["files"]]
     pres = [cc.norm(x) for x in lib.driver([r for _, r in preqs], timeout=1800)]
@@ -100,7 +118,7 @@ def main(tier):
     xr = cc.side_rng(rng)
     n_ratio = 6 if thorough else 2
     sets += [make_ratio_set(k) for k in range(n_ratio)]
-    sets += [make_tiny_set(1), make_tiny_set(0)]
+    sets += [make_tiny_set(k) for k in ("one", "none", "limit0", "micro")]
     reqs = [cc.driver_req(s["files"], s["cfg"], batch_sizes=[1, 7, 100] if s["big"] else s.get("batch_sizes", BATCH_SIZES), lsh=s["lsh"][:2] if s["big"] else s["lsh"],
                           table="upper" if (s["big"] or i % 2) else "full") for i, s in enumerate(sets)]
     if os.environ.get("C09_DUMP"):
@@ -298,7 +316,7 @@ def main(tier):
         if s["pre"] and n <= 30:
             body += "Eval vm_compute in (run_prefilter fs0).\nEval vm_compute in (run_prefilter_spec fs0).\n"
             evals += [("prefilter", None), ("prefilter_spec", None)]
-        if not truncated:
+        if not truncated or maxp <= 0:
             for bs in ([7] if n > 30 else s.get("batch_sizes", BATCH_SIZES)):
                 body += "Eval vm_compute in (run_batched tabs0 c0 fs0 %s).\n" % cZ(bs)
                 evals.append(("batched", bs))
@@ -374,7 +392,7 @@ def main(tier):
                 else:
                     impl = {cc.upair(p["i"], p["j"], p["type"]) for p in res["lsh"][arg]["pairs"]}
                     stats["model_lsh"] += 1
-                if truncated:
+                if truncated and s["cfg"]["MaxClonePairs"] > 0:
                     continue   # the unstable sort decides; covered by the property-level checks above
                 if impl != m:
                     ck.broken_ties.append("model %s(%s) differs from the implementation: model-only %s impl-only %s (cfg %s)" % (
@@ -384,7 +402,8 @@ def main(tier):
     if not any(s.get("res") is None for s in sets):
         need = ["size %s %s" % (c, o) for c in ("in-(1.5,5/3)", "in-(5/3,2)") for o in ("smaller-first", "larger-first")]
         missing = [k for k in need if not stats["prefilter_classes"].get(k)]
-        missing += [c for c in ("size edge-5/3", "size edge-2", "lines edge-2 ", "lines edge-2+1") if not any(k.startswith(c) for k in stats["prefilter_classes"])]
+        missing += [c for c in ("size edge-5/3", "size edge-2") if not any(k.startswith(c) for k in stats["prefilter_classes"])]
+        missing += ["lines %s %s" % (c, o) for c in ("edge-2", "edge-2+1") for o in ("shorter-first", "longer-first") if not stats["prefilter_classes"].get("lines %s %s" % (c, o))]
         missing += ["bs%d cross-batch %s" % (bs, o) for bs in (2, 3, 7) for o in ("smaller-first", "larger-first")
                     if not stats["ratio_pairs_by_batch"].get("bs%d cross-batch %s" % (bs, o))]
         if not any(k.endswith(o) and "same-batch" in k for k in stats["ratio_pairs_by_batch"] for o in ("smaller-first", "larger-first")):
@@ -440,7 +459,10 @@ def main(tier):
     ck.cov.update({
         "evaluations": stats["lsh_runs"] + stats["batch_runs"] + 2 * stats["cli_lsh_runs"],
         "distinct_nontrivial": stats["identical_pairs_checked"] + stats["exhaustive_pairs"],
-        "rule": "generated fragment sets (identical groups, renamed and edited near-duplicates, unrelated fragments; %d..%d fragments) x "
+        "rule": "generated fragment sets (identical groups, renamed and edited near-duplicates, unrelated fragments, docstring-only copies; %d..%d fragments; "
+                "plus the size-ratio family: try/except/finally functions with identical handlers, Size ratios exactly 1.5, inside (1.5, 5/3), exactly 5/3, inside (5/3, 2), "
+                "exactly 2 at similarity 0.75..0.9, smaller-first and larger-first, same batch and different batches for batch sizes 2, 3, 7 and more than 50 positions apart "
+                "in the big set; a line-count lattice 2x-1 / 2x / 2x+1 in both orders; sets of 0, 1 and 2 fragments, MaxClonePairs 0, 2-3 node fragments) x "
                 "LSH grid (bands, rows incl. rows > hashes and non-positive defaults, hash counts, thresholds incl. out of [0,1]) x batch sizes %s + "
                 "the public entry point with varied batch thresholds x pair limits (incl. truncating ones); CLI with lsh_enabled true/false; "
                 "distinct = exhaustive pairs compared" % (stats["fragments_min"], stats["fragments_max"], BATCH_SIZES),
@@ -455,6 +477,10 @@ def main(tier):
         "math/rand-derived hash functions of MinHasher are abstract (signatures are taken from the implementation); FNV-64a band hashing is "
         "modelled and compared with computeBandKeys on every fragment",
         "Go map iteration order in FindCandidates only permutes the candidate list: modelled as the set of index pairs sharing a band key",
+        "EstimateJaccardSimilarity's float64 quotient matches/n against the float64 LSH threshold: the model gets the exact bound m0/n with m0 the least "
+        "match count whose float64 quotient reaches the threshold (clonecommon.lsh_threshold_for_model; computed with Python float64 arithmetic)",
+        "shouldCompareFragments' argument order: the exhaustive loop shows the answer for (earlier, later), the batch loop with batch size 1 for (later, earlier); "
+        "both are compared with Clone/PairsPre.v run_prefilter (model filter in both orders) on every pair that clears the other gates",
         "hand-written model Clone/Pairs.v of clone_detector.go / lsh_index.go / minhash.go",
     ]
     ck.finish(assumptions=["'batched = unbatched' and 'identical pairs kept' are stated and checked without truncation by MaxClonePairs; "
